@@ -24,6 +24,9 @@ Audit additions: the model definitions `encodeRows`/`decodeRows`/`encodePkl`/`de
 `read_data`, `TsDB.is_common_time`; round trips over spellings of the call and of the options, array types, non-finite data, extreme
 magnitudes, real pre-existing exports, several exports in a row from one database object, the GUI's entry point
 `qats.app.funcs.export_to_file`; every exception of the implementation inside the harness becomes a failing clause.
+Round 5: series whose time arrays agree within the closeness `export` accepts (rtol 1e-9, atol 1e-12) but not to the last bit
+(`gen_close`, corner cases linspace vs sample number / 10) exported together to every format, and the writers called directly on
+such records (`writers_close`, input kind 'wclose'): one time column, n rows, every data column row for row.
 Known findings reported through matchers (ids below): F19 (.dat name like time*), F19b (.pkl name 'Time'), F30 (fewer than two
 processed samples), F31 ('.ts' elsewhere in the target path), F32 (resample given as a list + .ts), F-C07-existok (exist_ok given as 0 / numpy.bool_(False): the existing file is overwritten; found by the
 audit, needs an entry in known_findings.json or the repair `not exist_ok`).  The model also encodes
@@ -78,6 +81,11 @@ RULE = ("correspondence: seeded dyadic databases of 1-4 series in the families i
         "an existing target that is a larger real export, up to three exports in a row from one database object (other format / options "
         "/ selection / target, after refusals, the same option objects again); references: per-series retrieval from a second database "
         "and, for in-memory sources without options other than a window, the arrays the series were built from; "
+        "time arrays equal to rounding only (one grid computed as o+i*h / linspace / sample number over sample rate / running sum, "
+        "single-bit differences, scaled by 1+1e-10; and, to be refused, scaled by 1+5e-9, through float32, through 7 digits): several "
+        "such series from memory or from separate pickle / h5 / direct-access / ascii files exported together to every format, windows "
+        "ending on a sample of one of them or between samples, force_common_time (written as they are or resampled: both allowed); "
+        "the four writers called directly with the common time array and every series' own close time array; "
         "non-trivial = more than one series or any option; distinct by full case")
 
 EXTS = [".ts", ".dat", ".h5", ".pkl"]
@@ -1170,6 +1178,104 @@ def corr_rows_pkl(chk, drv, rng, N, root):
             shutil.rmtree(sub, ignore_errors=True)
 
 
+# ---- the writers on what `export` hands them when the series' time arrays agree to rounding only: the common time array (that of the
+# first series) and, per name, the series' OWN processed time array and data. The file must hold one time column (the common one)
+# and every data column, row for row, at the format's precision (h5: every series' own start and step).
+WCLOSE_KINDS = ["base", "linspace", "div", "cumsum", "ulp-interior", "ulp", "rel1e-10"]        # within rtol 1e-9 / atol 1e-12 of each other
+
+
+def gen_wclose(rng):
+    n = rng.choice([2, 3, 5, 11, 50, 201, rng.randint(2, 40), rng.randint(2, 600)])
+    h = rng.choice([0.1, 0.1, 0.01, 0.05, 0.2, 0.3, 0.025, 1.0 / 3.0, 0.5])
+    o = rng.choice([0.0, 0.0, 10.0, -3.5, 100.0])
+    k = rng.choice([1, 2, 2, 3, 4])
+    kinds = [rng.choice(WCLOSE_KINDS) for _ in range(k)]
+    if rng.random() < 0.15:
+        kinds = [kinds[0]] * k
+    times = [close_times(rng, n, h, o, kd) for kd in kinds]
+    scale = rng.choice([1e-3, 1.0, 37.5, 1e4])
+    return dict(kind="wclose", fmt=rng.choice(["pkl", "pkl", "ts", "dat", "h5"]), names=rng.sample(SAFE_NAMES, k), kinds=kinds, times=times,
+                cols=[[scale * rng.gauss(0.3, 1.0) for _ in range(n)] for _ in range(k)])
+
+
+def eval_wclose(inp, root):
+    """kind 'wclose': returns the failing clauses"""
+    from qats.io.direct_access import write_ts_data, read_ts_data, read_ts_names
+    from qats.io.other import write_dat_data, read_dat_data, read_dat_names
+    from qats.io.pickle_format import write_data as write_pkl, read_data as read_pkl, read_pickle_names
+    from qats.io.sima_h5 import write_data as write_h5, read_names as read_h5_names, read_data as read_h5_data
+    fmt, names = inp["fmt"], inp["names"]
+    times = [np.array(t, dtype=float) for t in inp["times"]]
+    cols = [np.array(c, dtype=float) for c in inp["cols"]]
+    t = times[0]
+    recs = OrderedDict((nm, (ti, c)) for nm, ti, c in zip(names, times, cols))
+    p = os.path.join(root, "w." + fmt)
+    fails = []
+    try:
+        if fmt == "ts":
+            write_ts_data(p, t, recs)
+            gn, arr = list(read_ts_names(p[:-3] + ".key")), np.atleast_2d(read_ts_data(p))
+        elif fmt == "dat":
+            write_dat_data(p, t, recs)
+            gn, arr = list(read_dat_names(p)), np.atleast_2d(read_dat_data(p))
+        elif fmt == "pkl":
+            write_pkl(p, t, recs)
+            gn, arr = list(read_pickle_names(p)), np.atleast_2d(read_pkl(p))
+        else:
+            write_h5(p, recs)
+            gn = list(read_h5_names(p))
+            pairs = read_h5_data(p, names=gn)
+    except Exception as e:
+        return [("the writer and reader of a format complete on series whose time arrays agree to rounding", "no exception",
+                 "%s: %s" % (type(e).__name__, str(e)[:160]))]
+    if sorted(gn) != sorted(names):
+        return [("the written file lists the names it was written with", names, gn)]
+    if fmt == "h5":
+        for nm, (tg, xg) in zip(gn, pairs):
+            j = names.index(nm)
+            tg, xg = np.asarray(tg, dtype=float), np.asarray(xg, dtype=float)
+            rt, at, rx, ax = tolerances(".h5", times[j], cols[j])
+            if tg.shape != times[j].shape or xg.shape != cols[j].shape or not np.all(np.abs(tg - times[j]) <= at) or not np.array_equal(xg, cols[j]):
+                fails.append(("an h5 file holds every series with its own (uniform) time array and its data",
+                              dict(series=nm, n=len(times[j]), t=times[j].tolist()[:4], x=cols[j].tolist()[:4]),
+                              dict(series=nm, n=len(tg), t=tg.tolist()[:4], x=xg.tolist()[:4])))
+        return fails
+    rt, at, rx, ax = tolerances("." + fmt, t, cols[0])
+    if arr.shape != (len(names) + 1, len(t)):
+        return [("a file written from k series of n samples whose time arrays agree to rounding holds one time column and k data columns "
+                 "of n rows", [len(names) + 1, len(t)], list(arr.shape))]
+    if not np.all(np.abs(arr[0] - t) <= at + rt * np.abs(t)):
+        j = int(np.argmax(np.abs(arr[0] - t) - rt * np.abs(t)))
+        fails.append(("the time column of the file is the common time array, at the format's precision", float(t[j]), float(arr[0][j])))
+    for nm, c in zip(names, cols):
+        g = arr[1 + gn.index(nm)]
+        if not np.all(within(g, c, rx, ax)):
+            j = worst(g, c, rx, ax)
+            fails.append(("every data column of the file is the data of its series, row for row, at the format's precision",
+                          dict(series=nm, index=j, value=float(c[j])), dict(series=nm, index=j, value=float(g[j]))))
+    return fails
+
+
+def writers_close(chk, rng, N):
+    for _ in range(N):
+        inp = gen_wclose(rng)
+        chk.count("writer-close-times")
+        chk.dist("writer-close:%s %s" % (inp["fmt"], "identical" if len(set(inp["kinds"])) == 1 and inp["kinds"][0] not in ("ulp", "ulp-interior")
+                                       else "to rounding"))
+        chk.nontriv(("wclose", json.dumps(inp, sort_keys=True)))
+        sub = tempfile.mkdtemp(prefix="qv07w_")
+        try:
+            try:
+                fails = eval_wclose(inp, sub)
+            except Exception as e:
+                fails = [("the writer and reader of a format complete on series whose time arrays agree to rounding", "no exception",
+                          "%s: %s" % (type(e).__name__, str(e)[:160]))]
+            for oracle, expected, observed in fails:
+                chk.fail(oracle, inp, expected, observed)
+        finally:
+            shutil.rmtree(sub, ignore_errors=True)
+
+
 # ----------------------------------------------------------------------------------------------------------------------------------
 # end-to-end oracles on the unpatched implementation
 # ----------------------------------------------------------------------------------------------------------------------------------
@@ -1193,11 +1299,75 @@ def representable(name, ext):
     return True
 
 
+# ---- time arrays that denote the same instants but are not the same floats: the grid o + i*h computed in different ways (linspace,
+# sample number divided by the sample rate, running sum), with single-bit differences, scaled by 1 + 1e-10 (inside the closeness
+# `export` accepts: rtol 1e-9, atol 1e-12), scaled by 1 + 5e-9 / passed through float32 / through seven significant digits (outside
+# it unless the values are representable). `export` writes the former side by side (one time column) and refuses the latter.
+CLOSE_KINDS = ["base", "linspace", "div", "cumsum", "ulp-interior", "ulp-interior", "ulp", "rel1e-10", "rel5e-9", "f32", "g7"]
+
+
+def close_times(rng, n, h, o, kind):
+    i = np.arange(n)
+    base = o + i * h
+    if kind == "linspace":
+        t = np.linspace(o, o + (n - 1) * h, n)
+    elif kind == "div":
+        r = round(1.0 / h)
+        t = o + i / float(r) if abs(r * h - 1.0) < 1e-9 else o + i / (1.0 / h)
+    elif kind == "cumsum":
+        t = o + np.concatenate([[0.0], np.cumsum(np.full(n - 1, h))])
+    elif kind in ("ulp", "ulp-interior"):
+        t = base.copy()
+        idx = range(n) if kind == "ulp" else range(1, n - 1)
+        for j in idx:
+            if rng.random() < 0.3:
+                t[j] = np.nextafter(t[j], rng.choice([-np.inf, np.inf]))
+    elif kind == "rel1e-10":
+        t = base * (1.0 + 1.0e-10)
+    elif kind == "rel5e-9":
+        t = base * (1.0 + 5.0e-9)
+    elif kind == "f32":
+        t = base.astype(np.float32).astype(float)
+    elif kind == "g7":
+        t = np.array([float("%.7g" % v) for v in base])
+    else:
+        t = base
+    if np.any(np.diff(t) <= 0):
+        t = base
+    return [float(v) for v in t]
+
+
+def gen_close(rng, nser):
+    """time arrays of `nser` series on one grid, each computed in its own way; returns (times, twin or None)"""
+    n = rng.choice([2, 3, 5, 11, 50, 101, 201, rng.randint(2, 40), rng.randint(2, 300)])
+    h = rng.choice([0.1, 0.1, 0.01, 0.05, 0.2, 0.3, 0.025, 1.0 / 3.0, 0.7, 0.5])
+    o = rng.choice([0.0, 0.0, 0.0, 10.0, -3.5, 100.0, 0.3])
+    pool = ["base", "linspace", "div", "cumsum", "ulp-interior"] if rng.random() < 0.7 else CLOSE_KINDS
+    kinds = [rng.choice(pool) for _ in range(nser)]
+    if nser > 1 and len(set(kinds)) == 1 and kinds[0] == "base":
+        kinds[rng.randrange(1, nser)] = rng.choice(["linspace", "div", "ulp-interior"])
+    times = [close_times(rng, n, h, o, k) for k in kinds]
+    twin = None
+    if rng.random() < 0.45 and n >= 4:
+        # window ends on a sample of one of the series (a tie: the other series may or may not hold that very float) or between
+        # two samples
+        ia = rng.randrange(0, n // 2)
+        ib = rng.randrange(n // 2 + 1, n)
+        a = rng.choice(times)[ia] + rng.choice([0.0, 0.0, h / 2, -h / 2])
+        b = rng.choice(times)[ib] + rng.choice([0.0, 0.0, h / 2, -h / 2])
+        twin = [float(a), float(b)]
+    return times, kinds, twin
+
+
 def gen_e2e(rng, corner=None):
-    """one export/reload case (JSON-serialisable)"""
+    """one export/reload case (JSON-serialisable); corner='close': series on one time grid computed in different ways"""
     exact = rng.random() < 0.4
     source = rng.choice(["mem", "mem", "mem", "pkl", "ts", "ts", "dat", "h5"])
     nser = rng.choice([1, 2, 2, 3, 4])
+    if corner == "close":
+        source = rng.choice(["mem", "mem", "mem", "mem", "pkl", "pkl", "h5", "ts", "dat"])
+        nser = rng.choice([2, 2, 3, 4])
+        exact = False
     if source == "mem":
         fam = rng.choice(["ident", "ident", "ident", "lattice", "offlattice", "samespan", "diffdt", "disjoint"])
     elif source == "h5":
@@ -1212,6 +1382,10 @@ def gen_e2e(rng, corner=None):
         h = rng.choice([0.1, 0.25, 0.02])
         times = [[i * h for i in range(n)] for _ in range(nser)]
         fam = "ident"
+    close_twin = None
+    if corner == "close":
+        times, close_kinds, close_twin = gen_close(rng, nser)
+        fam, big = "close", False
     times = [[float(v) for v in t] for t in times]
     scale = rng.choice([1e-3, 1.0, 1.0, 37.5, 1e4, 1e6, 1.0, 37.5, 2.0 ** 100, 2.0 ** -100, 2.0 ** 200, 2.0 ** -200])
     ext = rng.choice(EXTS + [".pickle"] if rng.random() < 0.1 else EXTS)
@@ -1270,7 +1444,10 @@ def gen_e2e(rng, corner=None):
     kwj = {}
     tt = [s["t"] for s in series]
     cs, ce = max(t[0] for t in tt), min(t[-1] for t in tt)
-    if rng.random() < 0.35:
+    if corner == "close":
+        if close_twin is not None:
+            kwj["twin"] = close_twin
+    elif rng.random() < 0.35:
         a, b = gen_twin(rng, tt)
         kwj["twin"] = [float(a), float(b)]
     k = rng.random()
@@ -1298,6 +1475,8 @@ def gen_e2e(rng, corner=None):
                 history=rng.choice(["read-first", "fresh", "fresh", "partial"]), partial_index=rng.randrange(4))
     if case["target_style"] == "bare":
         case["subdir"] = False               # a bare file name has no directory that could be missing
+    if corner == "close":
+        case["close_kinds"] = close_kinds
     # ---- the same thing spelled differently, boundary values, histories ------------------------------------------------------------
     sp = {}
     if "twin" in kwj and rng.random() < 0.5:
@@ -1459,6 +1638,24 @@ def corner_cases():
         fb2.update(source=src, ext=".pkl", select=["c", "a"], history="fresh", kw={"twin": [0.5, 1.5]},
                    series=[dict(name=n, file="f." + src, t=t5, x=x, dtg=None) for n, x in abc])
         out.append(fb2)
+    # series sampled at the same instants whose time arrays were computed in different ways (equal to rounding, not to the last bit):
+    # written side by side with ONE time column, to every format; alone, windowed between samples, three series, pickle-backed source
+    n = 201
+    ta = [float(v) for v in np.linspace(0.0, 20.0, n)]
+    tb = [float(v) for v in np.arange(n) / 10.0]
+    tc = [float(v) for v in close_times(__import__("random").Random(7), n, 0.1, 0.0, "ulp-interior")]
+    xa = [float(100.0 + 10.0 * np.sin(0.7 * v)) for v in tb]
+    xb = [float(np.cos(1.3 * v)) for v in tb]
+    xc = [float(0.5 * v - 3.0) for v in tb]
+    for ext in EXTS + [".pickle"]:
+        out.append(mk([("tension", ta, xa), ("offset", tb, xb)], ext=ext, family="close"))
+        out.append(mk([("offset", tb, xb), ("tension", ta, xa)], ext=ext, family="close", kw={"twin": [2.05, 15.05]}))
+        out.append(mk([("tension", ta, xa), ("offset", tb, xb), ("c", tc, xc)], ext=ext, family="close", select=["c", "tension", "offset"]))
+        out.append(mk([("a", ta[:6], xa[:6]), ("b", tb[:6], xb[:6])], ext=ext, family="close", preexisting=True))
+    cl = dict(base)
+    cl.update(source="pkl", ext=".pkl", family="close", history="fresh",
+              series=[dict(name="tension", file="r1/c.pkl", t=ta, x=xa, dtg=None), dict(name="offset", file="r2/c.pkl", t=tb, x=xb, dtg=None)])
+    out.append(cl)
     # known findings
     out.append(mk([("time_lag", t4, [1.0, 2.0, 3.0, 4.0]), ("b", t4, [5.0, 6.0, 7.0, 8.0])], ext=".dat"))             # F19
     out.append(mk([("Timer", t4, [1.0, 2.0, 3.0, 4.0])], ext=".dat"))                                                # F19
@@ -1740,7 +1937,18 @@ def eval_step(db, dbx, case, root, tdir, shared):
             forced, same = True, True
         except Exception:
             pass
-    nproc = None if exp is None else min(len(v[0]) for v in exp.values())
+    # time arrays that agree within export's closeness but not to the last bit, force_common_time=True: writing them side by side as
+    # they are and resampling them to the common time array are both what the statement allows
+    alt = None
+    if same and not forced and not ident and case["force"] and "resample" not in kw and case.get("entry") != "funcs" and \
+            not all(a.shape == ts_[0].shape and np.array_equal(a, ts_[0]) for a in ts_):
+        try:
+            kw2 = dict(kw)
+            kw2["resample"] = db.create_common_time(names=select, twin=kw.get("twin"))
+            alt = retrieve_each(db, keys, kw2)
+        except Exception:
+            alt = None
+    nproc = None if exp is None else min(len(v[0]) for v in list(exp.values()) + (list(alt.values()) if alt else []))
     xtra = dict(processed_samples=nproc)
     # the call as this case spells it (the same option objects again when a later export says so)
     sp = case.get("spell") or {}
@@ -1804,95 +2012,105 @@ def eval_step(db, dbx, case, root, tdir, shared):
     except Exception as e:
         fails.append(("the written file can be loaded again", "names, time and data", "%s: %s" % (type(e).__name__, str(e)[:160]), xtra))
         return fails, info
-    # names
-    if basename or len(keys) == 1:
-        want = list(exp_names)
-        okn = sorted(got_names) == sorted(want)         # (the order of the records is not part of the property; h5 sorts them)
-        if not okn:
-            fails.append(("reloaded names equal the exported names", want, got_names, xtra))
-            return fails, info
-        order = [got_names.index(n) for n in want]
-    else:
-        okn = len(got_names) == len(keys) and len(set(got_names)) == len(got_names) and \
-            all(g == n or g.endswith("_" + n) for g, n in zip(got_names if ext != ".h5" else sorted(got_names), exp_names if ext != ".h5" else
-                                                              [n for _, n in sorted(zip(got_names, got_names))]))
-        if ext == ".h5":
-            okn = len(got_names) == len(keys) and len(set(got_names)) == len(got_names)
-        if not okn:
-            fails.append(("with basename=False every series is written under a distinct shortened key ending in its name", exp_names, got_names, xtra))
-            return fails, info
-        if ext == ".h5":
-            # match by suffix and data
-            order = []
-            for (k, (te, xe)), n in zip(exp.items(), exp_names):
-                cands = [i for i, g in enumerate(got_names) if (g == n or g.endswith("_" + n)) and i not in order and len(got[i][1]) == len(xe)
-                         and np.array_equal(got[i][1], xe, equal_nan=True)]
-                if not cands:
-                    fails.append(("with basename=False every series is written under a distinct shortened key ending in its name", exp_names, got_names, xtra))
-                    return fails, info
-                order.append(cands[0])
+    def compare(exp, forced):
+        """the reloaded names and arrays against the expected processed arrays `exp`; returns the failing clauses"""
+        fails = []
+        # names
+        if basename or len(keys) == 1:
+            want = list(exp_names)
+            okn = sorted(got_names) == sorted(want)         # (the order of the records is not part of the property; h5 sorts them)
+            if not okn:
+                fails.append(("reloaded names equal the exported names", want, got_names, xtra))
+                return fails
+            order = [got_names.index(n) for n in want]
         else:
-            order = list(range(len(keys)))
-    # arrays
-    fmt = ext if ext != ".pickle" else ".pkl"
-    for (k, (te, xe)), i, n in zip(exp.items(), order, exp_names):
-        tg, xg = got[i]
-        rt, at, rx, ax = tolerances(fmt, te, xe)
-        if len(tg) != len(te) or len(xg) != len(xe):
-            fails.append(("reloaded arrays have the length of the processed arrays", [len(te), len(xe)], [len(tg), len(xg)], dict(series=n, **xtra)))
-            continue
-        # .ts / .dat / .pkl hold ONE time column: that of the first series, to which export compares the others with
-        # |t - t0| <= 1e-12 + 1e-9 |t0|. So: the format's precision against the first series' processed time, and that plus export's
-        # closeness against the series' own (h5 stores start and step per series: its own time at the format's precision)
-        te0 = list(exp.values())[0][0]
-        if ext == ".h5" and not is_uniform(te):
-            info["h5_nonuniform"] = True
-        elif ext != ".h5" and len(te0) == len(tg) and not np.all(np.abs(tg - te0) <= at + rt * np.abs(te0)):
-            j = int(np.argmax(np.abs(tg - te0) - (at + rt * np.abs(te0))))
-            fails.append(("reloaded time equals the processed time within the format's precision", float(te0[j]), float(tg[j]), dict(series=n, index=j, **xtra)))
-        elif not np.all(np.abs(tg - te) <= at + rt * np.abs(te) + (0.0 if ext == ".h5" else 1e-12 + 1e-9 * np.abs(te))):
-            j = int(np.argmax(np.abs(tg - te) - (at + rt * np.abs(te))))
-            fails.append(("reloaded time equals the processed time within the format's precision", float(te[j]), float(tg[j]), dict(series=n, index=j, **xtra)))
-        if not np.all(within(xg, xe, rx, ax)):
-            j = worst(xg, xe, rx, ax)
-            fails.append(("reloaded data equal the processed data within the format's precision", float(xe[j]), float(xg[j]), dict(series=n, index=j, **xtra)))
-        # the window, read directly off the file: no reloaded sample lies outside a window that was asked for
-        rsm = case["kw"].get("resample")
-        if "twin" in kw and len(tg) and not (ext == ".h5" and not is_uniform(te)) and (rsm is None or rsm[0] == "step"):
-            a, b = kw["twin"]
-            slack = at + rt * max(abs(a), abs(b), float(np.max(np.abs(tg))))
-            if tg[0] < a - slack or tg[-1] > b + slack or np.any(tg < a - slack) or np.any(tg > b + slack):
-                fails.append(("a windowed export holds no sample outside the window", [float(a), float(b)], [float(np.min(tg)), float(np.max(tg))],
-                              dict(series=n, **xtra)))
-        # ... and the stored samples themselves (in-memory source, no option but the window): not through any retrieval
-        if direct is not None and not forced:
-            t0, x0 = direct[k]
-            rt0, at0, rx0, ax0 = tolerances(fmt, t0, x0)
-            okd = len(tg) == len(t0) and len(xg) == len(x0) and (bool(np.all(np.abs(tg - t0) <= at0 + rt0 * np.abs(t0) + (0.0 if ext == ".h5" else 1e-12 + 1e-9 * np.abs(t0)))) or
-                                                                   (ext == ".h5" and not is_uniform(t0))) and bool(np.all(within(xg, x0, rx0, ax0)))
-            if not okd:
-                fails.append(("without options other than a window the reloaded file holds the samples the series was built from (inside the "
-                              "window), at the format's precision", dict(series=n, t=t0.tolist()[:6], x=x0.tolist()[:6]),
-                              dict(series=n, t=tg.tolist()[:6], x=xg.tolist()[:6]), dict(series=n, **xtra)))
-    # forced resampling: independent reading of "resampled to the common window"
-    if forced:
-        sel = OrderedDict((k, db.get(ind=db.register_keys.index(k), store=False)) for k in keys)     # each series read on its own
-        t_all = [np.array(sel[k].t) for k in keys]
-        cs, ce = max(a[0] for a in t_all), min(a[-1] for a in t_all)
-        T = got[0][0]
-        tol = 1e-6 * max(1.0, abs(ce))
-        if len(T) and (T[0] < cs - tol or T[-1] > ce + tol):
-            fails.append(("forced common time lies inside the common window", [float(cs), float(ce)], [float(T[0]), float(T[-1])], xtra))
-        if not any(x in case["kw"] for x in ("filterargs", "taperfrac", "window_len")):
-            for k, i, n in zip(keys, order, exp_names):
-                ref = np.interp(exp[k][0], sel[k].t, sel[k].x)
-                if len(got[i][1]) != len(ref):
-                    continue                    # (length mismatch is reported above)
-                rt, at, rx, ax = tolerances(fmt, exp[k][0], ref)
-                sc = max(1.0, float(np.max(np.abs(sel[k].x))))
-                if not np.all(np.abs(got[i][1] - ref) <= 1e-9 * sc + ax + max(rx, 1e-12) * np.abs(ref) + 2e-7 * sc * (ext in (".ts", ".dat"))):
-                    fails.append(("forced resampling writes the linear interpolation of each series on the common time", "np.interp",
-                                  "differs", dict(series=n, **xtra)))
+            okn = len(got_names) == len(keys) and len(set(got_names)) == len(got_names) and \
+                all(g == n or g.endswith("_" + n) for g, n in zip(got_names if ext != ".h5" else sorted(got_names), exp_names if ext != ".h5" else
+                                                                  [n for _, n in sorted(zip(got_names, got_names))]))
+            if ext == ".h5":
+                okn = len(got_names) == len(keys) and len(set(got_names)) == len(got_names)
+            if not okn:
+                fails.append(("with basename=False every series is written under a distinct shortened key ending in its name", exp_names, got_names, xtra))
+                return fails
+            if ext == ".h5":
+                # match by suffix and data
+                order = []
+                for (k, (te, xe)), n in zip(exp.items(), exp_names):
+                    cands = [i for i, g in enumerate(got_names) if (g == n or g.endswith("_" + n)) and i not in order and len(got[i][1]) == len(xe)
+                             and np.array_equal(got[i][1], xe, equal_nan=True)]
+                    if not cands:
+                        fails.append(("with basename=False every series is written under a distinct shortened key ending in its name", exp_names, got_names, xtra))
+                        return fails
+                    order.append(cands[0])
+            else:
+                order = list(range(len(keys)))
+        # arrays
+        fmt = ext if ext != ".pickle" else ".pkl"
+        for (k, (te, xe)), i, n in zip(exp.items(), order, exp_names):
+            tg, xg = got[i]
+            rt, at, rx, ax = tolerances(fmt, te, xe)
+            if len(tg) != len(te) or len(xg) != len(xe):
+                fails.append(("reloaded arrays have the length of the processed arrays", [len(te), len(xe)], [len(tg), len(xg)], dict(series=n, **xtra)))
+                continue
+            # .ts / .dat / .pkl hold ONE time column: that of the first series, to which export compares the others with
+            # |t - t0| <= 1e-12 + 1e-9 |t0|. So: the format's precision against the first series' processed time, and that plus export's
+            # closeness against the series' own (h5 stores start and step per series: its own time at the format's precision)
+            te0 = list(exp.values())[0][0]
+            if ext == ".h5" and not is_uniform(te):
+                info["h5_nonuniform"] = True
+            elif ext != ".h5" and len(te0) == len(tg) and not np.all(np.abs(tg - te0) <= at + rt * np.abs(te0)):
+                j = int(np.argmax(np.abs(tg - te0) - (at + rt * np.abs(te0))))
+                fails.append(("reloaded time equals the processed time within the format's precision", float(te0[j]), float(tg[j]), dict(series=n, index=j, **xtra)))
+            elif not np.all(np.abs(tg - te) <= at + rt * np.abs(te) + (0.0 if ext == ".h5" else 1e-12 + 1e-9 * np.abs(te))):
+                j = int(np.argmax(np.abs(tg - te) - (at + rt * np.abs(te))))
+                fails.append(("reloaded time equals the processed time within the format's precision", float(te[j]), float(tg[j]), dict(series=n, index=j, **xtra)))
+            if not np.all(within(xg, xe, rx, ax)):
+                j = worst(xg, xe, rx, ax)
+                fails.append(("reloaded data equal the processed data within the format's precision", float(xe[j]), float(xg[j]), dict(series=n, index=j, **xtra)))
+            # the window, read directly off the file: no reloaded sample lies outside a window that was asked for
+            rsm = case["kw"].get("resample")
+            if "twin" in kw and len(tg) and not (ext == ".h5" and not is_uniform(te)) and (rsm is None or rsm[0] == "step"):
+                a, b = kw["twin"]
+                slack = at + rt * max(abs(a), abs(b), float(np.max(np.abs(tg))))
+                if tg[0] < a - slack or tg[-1] > b + slack or np.any(tg < a - slack) or np.any(tg > b + slack):
+                    fails.append(("a windowed export holds no sample outside the window", [float(a), float(b)], [float(np.min(tg)), float(np.max(tg))],
+                                  dict(series=n, **xtra)))
+            # ... and the stored samples themselves (in-memory source, no option but the window): not through any retrieval
+            if direct is not None and not forced:
+                t0, x0 = direct[k]
+                rt0, at0, rx0, ax0 = tolerances(fmt, t0, x0)
+                okd = len(tg) == len(t0) and len(xg) == len(x0) and (bool(np.all(np.abs(tg - t0) <= at0 + rt0 * np.abs(t0) + (0.0 if ext == ".h5" else 1e-12 + 1e-9 * np.abs(t0)))) or
+                                                                       (ext == ".h5" and not is_uniform(t0))) and bool(np.all(within(xg, x0, rx0, ax0)))
+                if not okd:
+                    fails.append(("without options other than a window the reloaded file holds the samples the series was built from (inside the "
+                                  "window), at the format's precision", dict(series=n, t=t0.tolist()[:6], x=x0.tolist()[:6]),
+                                  dict(series=n, t=tg.tolist()[:6], x=xg.tolist()[:6]), dict(series=n, **xtra)))
+        # forced resampling: independent reading of "resampled to the common window"
+        if forced:
+            sel = OrderedDict((k, db.get(ind=db.register_keys.index(k), store=False)) for k in keys)     # each series read on its own
+            t_all = [np.array(sel[k].t) for k in keys]
+            cs, ce = max(a[0] for a in t_all), min(a[-1] for a in t_all)
+            T = got[0][0]
+            tol = 1e-6 * max(1.0, abs(ce))
+            if len(T) and (T[0] < cs - tol or T[-1] > ce + tol):
+                fails.append(("forced common time lies inside the common window", [float(cs), float(ce)], [float(T[0]), float(T[-1])], xtra))
+            if not any(x in case["kw"] for x in ("filterargs", "taperfrac", "window_len")):
+                for k, i, n in zip(keys, order, exp_names):
+                    ref = np.interp(exp[k][0], sel[k].t, sel[k].x)
+                    if len(got[i][1]) != len(ref):
+                        continue                    # (length mismatch is reported above)
+                    rt, at, rx, ax = tolerances(fmt, exp[k][0], ref)
+                    sc = max(1.0, float(np.max(np.abs(sel[k].x))))
+                    if not np.all(np.abs(got[i][1] - ref) <= 1e-9 * sc + ax + max(rx, 1e-12) * np.abs(ref) + 2e-7 * sc * (ext in (".ts", ".dat"))):
+                        fails.append(("forced resampling writes the linear interpolation of each series on the common time", "np.interp",
+                                      "differs", dict(series=n, **xtra)))
+        return fails
+    f1 = compare(exp, forced)
+    if f1 and alt is not None and not compare(alt, True):
+        # (time arrays that agree to rounding but not to the last bit, force_common_time=True: the series were resampled to the common
+        # time array, which the statement allows as well)
+        f1, info["forced"] = [], True
+    fails += f1
     return fails, info
 
 
@@ -1978,7 +2196,9 @@ def run_e2e(chk, case):
                          ("target_style", case.get("target_style") if case.get("target_style") in ("dot", "dotdot") else None),
                          ("reload", case.get("reload_style") if case.get("reload_style") in ("abs", "load") else None),
                          ("nonfinite", "yes" if case.get("nonfinite") else None), ("delim", repr(case["delim"]) if case.get("delim") else None),
-                         ("then", "%d more" % len(case["then"]) if case.get("then") else None)):
+                         ("then", "%d more" % len(case["then"]) if case.get("then") else None),
+                         ("close-times", "%s -> %s %s" % ("+".join(sorted(set(case["close_kinds"]))), ext, info.get("outcome", "?"))
+                          if case.get("close_kinds") else None)):
             if val not in (None, "f8", "method", "kw"):
                 chk.dist("e2e-class:%s=%s" % (lab, val))
         for k, v in (case.get("spell") or {}).items():
@@ -2031,6 +2251,10 @@ def run(chk):
         run_e2e(chk, c)
     for _ in range(1300 if chk.quick else 12000):
         run_e2e(chk, gen_e2e(rng))
+    # series on one time grid whose time arrays are equal to rounding only (after the main stream, whose cases stay what they were)
+    for _ in range(220 if chk.quick else 2500):
+        run_e2e(chk, gen_e2e(rng, corner="close"))
+    writers_close(chk, rng, 150 if chk.quick else 2000)
 
 
 def replay(rp):
@@ -2058,6 +2282,10 @@ def replay(rp):
         elif kind == "pkl":
             gn, gd, fails = eval_pkl(inp, root)
             print("pickle_format.write_data / read_pickle_names / read_data on names %s" % inp["names"])
+        elif kind == "wclose":
+            fails = eval_wclose(inp, root)
+            print("%s writer / reader on %d series of %d samples, time arrays computed as %s" % (inp["fmt"], len(inp["names"]), len(inp["times"][0]),
+                                                                                           inp["kinds"]))
         elif kind == "codec" and inp.get("codec") == "exception":
             from qats.io.direct_access import write_ts_data, read_ts_names, read_ts_data
             from qats.io.other import write_dat_data, read_dat_names
